@@ -229,4 +229,22 @@ def parsePackage (bs : Bytes) : Out Package := do
 /-- `Package::write` -/
 def writePackage (p : Package) : Bytes := writeMetadata p.md ++ p.content
 
+/-! ## segment offsets (`Header::size`, `get_package_segment_offsets`; u64 arithmetic) -/
+
+/-- `Header::size` -/
+def Header.size (h : Header) : Nat := INDEX_HEADER_SIZE + h.nEntries * INDEX_ENTRY_SIZE + h.dataSize
+
+structure Offsets where
+  lead : Nat
+  sig : Nat
+  hdr : Nat
+  payload : Nat
+  deriving DecidableEq, Repr
+
+/-- `get_package_segment_offsets` -/
+def offsets (m : Metadata) : Offsets :=
+  let sigStart := LEAD_SIZE
+  let hdrStart := sigStart + m.signature.size + sigPad m.signature.dataSize
+  ⟨0, sigStart, hdrStart, hdrStart + m.header.size⟩
+
 end RpmVerif.Hdr
